@@ -38,12 +38,15 @@ class Plan:
         self.explanation = ""
         self.replayers = {}
         self.unit_contracts = {}  # unit name -> (qualname, family member | None)
+        self.unit_factories = {}  # unit name -> (module, factory, arg) for contracts built by a sidecar factory
         self.digest = extract.source_digest([os.path.join(VERIF, "pvc"), os.path.join(VERIF, "contracts")])
 
     def add(self, unit):
         self.units.append(unit)
         if isinstance(unit, FuncUnit):
             self.unit_contracts[unit.name] = (unit.qualname, unit.member)
+        if isinstance(unit, CustomUnit) and getattr(unit.fn, "__name__", "") == "factory_unit":
+            self.unit_factories[unit.name] = tuple(unit.args[:3])
         return unit
 
     def func(self, qualname, member=None, **kw):
@@ -545,3 +548,169 @@ def plan_C08(p, tier, seed):
     _init_canary(p, "struct-error-not-translated", "pyubx2.ubxmessage", "            struct.error,\n", "", 0, "0b02")
     p.canary("parse-error-message-overflows", "pyubx2.ubxreader", 'f" - should be {max(lenm - 8, 0)}"',
              'f" - should be {val2bytes(lenm, U2)}"', FuncUnit(R + "parse"))
+
+
+# ----------------------------------------------------------------------------------------------- keyword mode
+def _kw_units(p, select):
+    from . import instance as inst
+    keys = inst.message_keys()
+    n = 0
+    for m in (0, 1, 2):
+        for k in keys:
+            u = CustomUnit(f"kwinit[{inst.MODES[m]}:{k.hex()}]", inst.kwargs_unit, (m, k), props=(p.prop,), cost=1)
+            u.select = select
+            p.add(u)
+            p.replayers[u.name] = inst.replay_kwinit
+            n += 1
+    return n
+
+
+T_KW = ("keyword mode: the keyword map is a ghost map name -> (present, value); every attribute of the selected definition "
+        "may be supplied with a symbolic in-range value of its kind or omitted (merged as `present ? value : nominal`); "
+        "repeated attributes are indexed families; counted groups take the supplied size attribute as their count and are "
+        "cut per arbitrary repeat (the repeat appends exactly G bytes that decode to the keyword values of index i+1)")
+
+
+def plan_C03(p, tier, seed):
+    from . import bounded, lemmas_misc
+    p.explanation = (
+        "Instance mode, keyword route: for every class/ID x mode (variants chosen by the real selectors from the symbolic "
+        "discriminators) the real walker builds the payload from a symbolic keyword map; proved: construction succeeds for "
+        "in-range values (or the payload exceeds 65535 bytes), the payload has the definition's length (group counts == the "
+        "supplied size attributes) and every field of the built payload, decoded raw by the independent layout oracle, equals "
+        "the supplied value (nominal zero/blank when omitted); bitfields equal the sum of the supplied flags shifted to their "
+        "offsets. Composition with C02 (parse decodes each field at the oracle's offset) and the C18 inverse laws gives 'parsing "
+        "returns the supplied values'; the mixed-radix lemma per flag layout closes the bitfield case. Scaled fields: the "
+        "float arithmetic int(round(raw*scale,12)/scale) == raw is outside SMT reach - native enumeration per (type, scale) "
+        "pair, exhaustive for 1- and 2-byte types, bounded for wider ones.")
+    n = _kw_units(p, r"/(C03:|.*loop1\[kw\])")
+    from contracts.helpers import type_constants, INT_LETTERS
+    for T in type_constants():
+        p.func(H + "val2bytes", T)
+        p.func(H + "nomval", T)
+    p.add(CustomUnit("lemma.mixed-radix", lemmas_misc.mixed_radix_unit, (), props=("C03",), cost=20))
+    p.add(BoundedUnit("bounded.C03/scaled-roundtrip", bounded.scaled_roundtrip, (tier, seed), props=("C03",)))
+    p.add(BoundedUnit("bounded.C03/keyword-build-parse", bounded.kw_end_to_end, (tier, seed), props=("C03",)))
+    p.instances = {"keyword_instance_units": n}
+    p.exhaustive = True
+    p.min_obligations = 4000
+    p.trusted_base += [T_INSTANCE, T_KW, "contracts/oracle.py"]
+    from . import instance as inst
+    p.canary("payload-overwritten", "pyubx2.ubxmessage", "            self._payload += valb\n", "            self._payload = valb\n",
+             CustomUnit("x", inst.kwargs_unit, (0, bytes.fromhex("0122"))))
+    p.canary("nomval-one", "pyubx2.ubxhelpers", '    elif atttyp(att) in ("E", "I", "L", "U"):\n        val = 0',
+             '    elif atttyp(att) in ("E", "I", "L", "U"):\n        val = 1', FuncUnit(H + "nomval", "U004"))
+    p.canary("flag-shifted-one-too-far", "pyubx2.ubxmessage", "bitfield = bitfield | (val << bfoffset)",
+             "bitfield = bitfield | (val << (bfoffset + 1))",
+             CustomUnit("x", inst.kwargs_unit, (0, bytes.fromhex("0103"))))
+    p.canary("group-count-ignored", "pyubx2.ubxmessage", "            for i in range(gsiz):\n                index[-1] = i + 1",
+             "            for i in range(gsiz + 1):\n                index[-1] = i + 1", CustomUnit("x", inst.kwargs_unit, (0, bytes.fromhex("0135"))))
+
+
+def plan_C04(p, tier, seed):
+    from . import lemmas_misc, ground
+    p.explanation = (
+        "_do_len_checksum and serialize are verified against contracts (length == u16le(len(payload)), checksum == Fletcher-8 "
+        "of class..payload, frame == b5 62 + class + id + length + payload + checksum); the constructor contract carries these "
+        "clauses and is proved for every class/ID x mode on both construction routes (payload bytes: instance mode; keywords: "
+        "keyword mode), so the clause does not depend on how the payload was produced. Lemma: the serialization of any object "
+        "satisfying the constructor's post is a well-formed frame (wf_frame, independent definition) and parse in the same mode "
+        "raises no UBXParseError for it (parse contract). Addressing forms: msgstr2bytes over every entry of the tables "
+        "(ground, exhaustive), msgclass2bytes (M) for all 0..255 pairs; config_* helpers: see C14.")
+    p.func(M + "_do_len_checksum")
+    p.func(M + "serialize")
+    p.func(H + "calc_checksum")
+    p.func(H + "msgclass2bytes")
+    p.func(R + "parse")
+    _instance_units(p, r"/ensures:(class|id|mode|length-width|length-value|checksum)")
+    _kw_units(p, r"/ensures:(class|id|mode|length-width|length-value|checksum)")
+    p.add(LemmaUnit(
+        "lemma.C04/serialized-message-is-well-formed", "pyubx2.ubxmessage",
+        {"cls": ("bytesn", 1), "mid": ("bytesn", 1), "mode": "int", "pl": "bytes"},
+        ["0 <= mode <= 2", "len(pl) <= 65535"],
+        [("wf", "wf_frame(UBXMessage(cls, mid, mode, payload=pl).serialize())"),
+         ("wf-empty", "wf_frame(UBXMessage(cls, mid, mode).serialize())")],
+        props=("C04",), allow=UBX_ERRS))
+    p.add(LemmaUnit(
+        "lemma.C04/parse-accepts-what-serialize-emits", "pyubx2.ubxreader",
+        {"f": "bytes", "msgmode": "int", "parsebitfield": "boolint"},
+        ["wf_frame(f)", "0 <= msgmode <= 2"],
+        [("no-parse-error", "UBXReader.parse(f, msgmode, 1, parsebitfield) is not None")],
+        props=("C04",), allow=("UBXMessageError", "UBXTypeError")))
+    p.add(GroundUnit("ground.C04/addressing-forms", lemmas_misc.addressing_forms, (), props=("C04",)))
+    p.min_obligations = 8000
+    p.trusted_base += [T_INSTANCE, T_KW]
+    p.canary("checksum-b-plus-char", "pyubx2.ubxhelpers", "check_b += check_a", "check_b += char", FuncUnit(H + "calc_checksum"))
+    p.canary("checksum-skips-length", "pyubx2.ubxmessage", "self._ubxClass + self._ubxID + self._length + payload",
+             "self._ubxClass + self._ubxID + payload", FuncUnit(M + "_do_len_checksum"))
+    p.canary("serialize-swaps-class-id", "pyubx2.ubxmessage", "            + self._ubxClass\n            + self._ubxID\n",
+             "            + self._ubxID\n            + self._ubxClass\n", FuncUnit(M + "serialize"))
+
+
+def plan_C17(p, tier, seed):
+    from . import lemmas_misc
+    p.explanation = (
+        "getinputmode is verified against the documented heuristic (contract); parse (M) substitutes exactly "
+        "getinputmode(message) for SETPOLL before construction (clause `mode`), so parsing with SETPOLL equals parsing with "
+        "that mode. Per SET and per POLL definition of the working tree: linear-arithmetic lemma over the conforming payload "
+        "lengths of the definition (static size + count * group size, counts ranging over what the size attribute can express) "
+        "that the heuristic returns the definition's own mode.")
+    p.func(H + "getinputmode")
+    p.func(R + "parse")
+    u = p.add(CustomUnit("lemma.C17/per-definition", lemmas_misc.setpoll_unit, (), props=("C17",), cost=5))
+    p.replayers[u.name] = lemmas_misc.replay_setpoll
+    p.exhaustive = True
+    p.min_obligations = 300
+    p.canary("inputmode-length-9", "pyubx2.ubxhelpers", "        len(data) == 8\n", "        len(data) <= 9\n", FuncUnit(H + "getinputmode"))
+    p.canary("parse-ignores-setpoll", "pyubx2.ubxreader", "            msgmode = getinputmode(message)  # returns SET or POLL",
+             "            msgmode = SET", FuncUnit(R + "parse"))
+
+
+def plan_C15(p, tier, seed):
+    from .units import factory_unit
+    from . import instance as inst, bounded
+    from contracts.helpers import type_constants, ANY_KINDS, INT_LETTERS
+    p.explanation = (
+        "Per-field claim, mode M, for every attribute type constant and every Python kind of value (int of any magnitude, "
+        "float, str, bytes of any length, lists shorter/equal/longer than the field, None, tuple): val2bytes either raises "
+        "one of the exceptions the constructor translates or returns exactly size(T) bytes that decode to the value; the "
+        "keyword branch of _set_attribute_single appends exactly those bytes and leaves the earlier payload untouched (it "
+        "uses val2bytes by that contract); _set_attribute_bits either refuses or the value fits its slot and only that slot "
+        "changes. Per definition (keyword instance mode): the built payload has exactly the definition's length, and "
+        "discriminator keywords of arbitrary kind are refused with UBXMessageError/UBXTypeError only (the constructor's "
+        "handlers, including their own message formatting, are executed).")
+    types = type_constants()
+    for T in types:
+        for kind in ANY_KINDS:
+            lab = f"val2bytes[{T} any:{kind}]"
+            u = p.add(CustomUnit(lab, factory_unit, ("contracts.helpers", "c15_val2bytes", (T, kind), lab), props=("C15",),
+                                 cost=30 if T[0] == "A" and kind.startswith("list") else 1))
+            p.unit_contracts_factory = getattr(p, "unit_contracts_factory", {})
+        if T == "CH":
+            continue
+        for kind in ("int", "float", "str", "bytes", "none"):
+            for scaled in ((False, True) if T[0] in INT_LETTERS else (False,)):
+                lab = f"_set_attribute_single[kw {T} any:{kind}{' scaled' if scaled else ''}]"
+                p.add(CustomUnit(lab, factory_unit, ("contracts.message", "c15_set_attribute_single", (T, kind, scaled), lab),
+                                 props=("C15",)))
+    for arg in ((0, 1), (5, 3), (7, 1), (13, 5), (0, 8)):
+        lab = f"_set_attribute_bits[kw offset={arg[0]} width={arg[1]}]"
+        p.add(CustomUnit(lab, factory_unit, ("contracts.message", "c15_set_attribute_bits", arg, lab), props=("C15",)))
+    _kw_units(p, r"/(C03:length|raises:|C03:in-range-values-accepted)")
+    vmod = extract.load_module("pyubx2.ubxvariants")[0]
+    for mode, tab in vmod.VARIANTS.items():
+        for key in tab:
+            u = CustomUnit(f"kwinit-anydisc[{inst.MODES[mode]}:{key.hex()}]", inst.kwargs_unit, (mode, key, "anydisc"),
+                           props=("C15",), cost=3)
+            u.select = r"/(C15:|raises:)"
+            p.add(u)
+    p.add(BoundedUnit("bounded.C15/bad-values-natively", bounded.bad_values, (tier, seed), props=("C15",)))
+    p.min_obligations = 3000
+    p.trusted_base += [T_INSTANCE, T_KW, "float edge cases (nan / inf) enter through the built-in models of int(float) and "
+                                        "struct.pack: nondeterministic ValueError / OverflowError branches (assumed complete)"]
+    p.canary("type-gate-removed", "pyubx2.ubxhelpers", "        if not isinstance(val, ATTTYPE[atttyp(att)]):", "        if False:",
+             CustomUnit("x", factory_unit, ("contracts.helpers", "c15_val2bytes", ("X004", "int"), "x")))
+    p.canary("flag-range-check-removed", "pyubx2.ubxmessage", "            if not 0 <= val < (1 << atts):", "            if False:",
+             CustomUnit("x", factory_unit, ("contracts.message", "c15_set_attribute_bits", (5, 3), "x")))
+    p.canary("overflow-not-translated", "pyubx2.ubxmessage", "        except (OverflowError,) as err:", "        except (ZeroDivisionError,) as err:",
+             CustomUnit("x", inst.kwargs_unit, (1, bytes.fromhex("0272"), "anydisc")))
